@@ -15,7 +15,7 @@ use rustrtc::transports::dtls::{Certificate, fingerprint, generate_certificate};
 use std::collections::VecDeque;
 
 #[derive(Clone, Debug, PartialEq)]
-pub enum Act { Drop, Dup, Swap, FlipBody(u16), CertOther, CertEmpty, CertGarbage, Resign, CertOtherResign, FlipSig, FlipKey, FlipRandom, StripExt(u16), FlipCipher, Fragment(u16), FragDupMid(u16), FragReorder(u16), SeqMinus1, Impostor }
+pub enum Act { Drop, Dup, Swap, FlipBody(u16), CertOther, CertEmpty, CertGarbage, Resign, CertOtherResign, FlipSig, FlipKey, FlipRandom, StripExt(u16), FlipCipher, Fragment(u16), FragDupMid(u16), FragReorder(u16), SeqMinus1, Impostor, ImpostorChain, ExtraCert, RefragTailLost(u16), RefragEvery3(u16), PreInject(u8) }
 
 #[derive(Clone, Debug, PartialEq)]
 pub struct Rule { pub from_client: bool, pub typ: u8, pub act: Act }
@@ -31,7 +31,9 @@ impl Script {
             Act::CertOtherResign => "otherresign".into(), Act::FlipSig => "flipsig".into(), Act::FlipKey => "flipkey".into(),
             Act::FlipRandom => "fliprandom".into(), Act::StripExt(e) => format!("strip{e}"), Act::FlipCipher => "flipcipher".into(),
             Act::Fragment(n) => format!("frag{n}"), Act::FragDupMid(n) => format!("fragdup{n}"), Act::FragReorder(n) => format!("fragreorder{n}"),
-            Act::SeqMinus1 => "seqminus1".into(), Act::Impostor => "impostor".into() })).collect();
+            Act::SeqMinus1 => "seqminus1".into(), Act::Impostor => "impostor".into(), Act::ImpostorChain => "impostorchain".into(),
+            Act::ExtraCert => "extracert".into(), Act::RefragTailLost(n) => format!("refragtaillost{n}"), Act::RefragEvery3(n) => format!("refragevery{n}"),
+            Act::PreInject(ct) => format!("preinject{ct}") })).collect();
         format!("ce={} se={} {}", self.ce, self.se, if rs.is_empty() { "-".into() } else { rs.join(";") })
     }
     pub fn parse(s: &str) -> Script {
@@ -45,8 +47,10 @@ impl Script {
             let num = |pre: &str| a[pre.len()..].parse::<u16>().unwrap();
             let act = match a { "drop" => Act::Drop, "dup" => Act::Dup, "swap" => Act::Swap, "other" => Act::CertOther, "empty" => Act::CertEmpty,
                 "garbage" => Act::CertGarbage, "resign" => Act::Resign, "otherresign" => Act::CertOtherResign, "flipsig" => Act::FlipSig,
-                "flipkey" => Act::FlipKey, "fliprandom" => Act::FlipRandom, "flipcipher" => Act::FlipCipher, "seqminus1" => Act::SeqMinus1, "impostor" => Act::Impostor,
+                "flipkey" => Act::FlipKey, "fliprandom" => Act::FlipRandom, "flipcipher" => Act::FlipCipher, "seqminus1" => Act::SeqMinus1, "impostor" => Act::Impostor, "impostorchain" => Act::ImpostorChain, "extracert" => Act::ExtraCert,
                 x if x.starts_with("flipbody") => Act::FlipBody(num("flipbody")), x if x.starts_with("strip") => Act::StripExt(num("strip")),
+                x if x.starts_with("preinject") => Act::PreInject(num("preinject") as u8),
+                x if x.starts_with("refragtaillost") => Act::RefragTailLost(num("refragtaillost")), x if x.starts_with("refragevery") => Act::RefragEvery3(num("refragevery")),
                 x if x.starts_with("fragdup") => Act::FragDupMid(num("fragdup")), x if x.starts_with("fragreorder") => Act::FragReorder(num("fragreorder")),
                 x if x.starts_with("frag") => Act::Fragment(num("frag")), x => panic!("bad act {x}") };
             rules.push(Rule { from_client: p[0] == "c>s", typ: p[1].parse().unwrap(), act });
@@ -84,7 +88,9 @@ impl Attacker {
 }
 
 /// apply one action to a datagram; returns the datagrams to forward (in order)
-fn apply(act: &Act, dg: &[u8], atk: &Attacker, randoms: &(Vec<u8>, Vec<u8>)) -> Vec<Vec<u8>> {
+/// `occ`: how many datagrams of this kind the rule has already seen (persistent re-fragmentation rules
+/// apply to every retransmission, with a different split each time)
+fn apply(act: &Act, dg: &[u8], atk: &Attacker, randoms: &(Vec<u8>, Vec<u8>), occ: usize) -> Vec<Vec<u8>> {
     let cert_body = |certs: &[Vec<u8>]| { let mut b = vec![]; let tot: usize = certs.iter().map(|c| c.len() + 3).sum();
         b.extend_from_slice(&(tot as u32).to_be_bytes()[1..]); for c in certs { b.extend_from_slice(&(c.len() as u32).to_be_bytes()[1..]); b.extend_from_slice(c); } b };
     let resign = |body: &mut Vec<u8>| {
@@ -121,11 +127,32 @@ fn apply(act: &Act, dg: &[u8], atk: &Attacker, randoms: &(Vec<u8>, Vec<u8>)) -> 
                 b.truncate(i); b.extend_from_slice(&(out.len() as u16).to_be_bytes()); b.extend_from_slice(&out);
             } })],
         Act::FlipCipher => { let mut d = dg.to_vec(); let n = d.len(); d[n - 20] ^= 1; vec![d] }
-        Act::Impostor => vec![dg.to_vec()],
+        Act::Impostor | Act::ImpostorChain | Act::ExtraCert => vec![dg.to_vec()],
         Act::SeqMinus1 => {
             // renumber the message (an on-path party closing the gap after dropping its predecessor)
             let r = &parse_records(dg)[0]; let m = &parse_hs(&r.body)[0];
             vec![record_bytes(22, (r.vmaj, r.vmin), r.epoch, r.seq, &hs_bytes(m.typ, m.total, m.seq.wrapping_sub(1), m.off, &m.body))]
+        }
+        Act::PreInject(ct) => {
+            // a clear-text record of the given content type arrives just before this datagram (from anybody):
+            // application data, close_notify, ChangeCipherSpec, or a Finished with an arbitrary verify_data
+            let payload: Vec<u8> = match ct { 21 => vec![1, 0], 20 => vec![1], 22 => hs_bytes(20, 12, 9, 0, &[0x5A; 12]), _ => b"clear-text application data".to_vec() };
+            vec![record_bytes(*ct, (254, 253), 0, 99, &payload), dg.to_vec()]
+        }
+        Act::RefragTailLost(a) | Act::RefragEvery3(a) => {
+            // legal re-fragmentation by the path: correct fragment_offset / fragment_length, a different split on
+            // every (re)transmission; the first transmission loses its last fragment
+            let r = &parse_records(dg)[0]; let m = &parse_hs(&r.body)[0];
+            let n = m.body.len();
+            if n < 4 { return vec![dg.to_vec()]; }
+            let piece = |lo: usize, hi: usize, k: u64| record_bytes(22, (r.vmaj, r.vmin), 0, r.seq + 100 * (k + 1),
+                &hs_bytes(m.typ, n as u32, m.seq, lo as u32, &m.body[lo..hi]));
+            let cut = ((*a as usize + 13 * occ) % (n - 2)).max(1);
+            let mut frags = if matches!(act, Act::RefragTailLost(_)) { vec![piece(0, cut, 0), piece(cut, n, 1)] } else {
+                let c2 = (cut + (n - cut) / 2).min(n - 1).max(cut + 1);
+                vec![piece(0, cut, 0), piece(cut, c2, 1), piece(c2, n, 2)] };
+            if occ == 0 { frags.pop(); }
+            frags
         }
         Act::FragDupMid(a) | Act::FragReorder(a) => {
             // three fragments [0,a) [a,2a) [2a,..): the middle one twice, or the last two swapped
@@ -159,9 +186,19 @@ pub async fn run_script_ticks(sc: &Script, max_ticks: u32) -> Option<Outcome> {
     let exp = |c: char, peer: &Certificate| match c { 'o' => Some(fingerprint(peer)), 'b' => Some(bogus.clone()), _ => None };
     let (exp_c, exp_s) = (exp(sc.ce, &scert), exp(sc.se, &cc));
     let mut c = Recd::new(true, cc, exp_c.clone()).await;
-    // an impostor server: presents the genuine server's certificate but holds (and signs with) another key
-    let scert = if sc.rules.iter().any(|r| r.act == Act::Impostor) {
+    // impostor servers (the pinned fingerprint stays the genuine server's):
+    //  impostor       presents the genuine certificate but holds (and signs with) another key
+    //  impostorchain  presents [attacker certificate, genuine certificate] and signs with the attacker's key
+    //  extracert      the genuine server, presenting [genuine certificate, some other certificate] (must still connect)
+    let has = |a: Act| sc.rules.iter().any(|r| r.act == a);
+    let scert = if has(Act::Impostor) {
         let mut c = Certificate::default(); c.certificate = scert.certificate.clone(); c.private_key = atk.cert.private_key.clone(); c
+    } else if has(Act::ImpostorChain) {
+        let mut c = Certificate::default(); c.certificate = vec![atk.cert.certificate[0].clone(), scert.certificate[0].clone()];
+        c.private_key = atk.cert.private_key.clone(); c
+    } else if has(Act::ExtraCert) {
+        let mut c = Certificate::default(); c.certificate = vec![scert.certificate[0].clone(), atk.cert.certificate[0].clone()];
+        c.private_key = scert.private_key.clone(); c
     } else { scert };
     let mut s = Recd::new(false, scert, exp_s.clone()).await;
     let (c_src, s_src) = (c.ep.sink_addr, s.ep.sink_addr);
@@ -170,6 +207,7 @@ pub async fn run_script_ticks(sc: &Script, max_ticks: u32) -> Option<Outcome> {
     let _ = s.start().await;
     for d in c.start().await { q_cs.push_back(d); }
     let mut used = vec![false; sc.rules.len()];
+    let mut occ = vec![0usize; sc.rules.len()];
     let mut held: (Option<Vec<u8>>, Option<Vec<u8>>) = (None, None);
     let mut randoms = (vec![], vec![]);
     let mut guard = 0;
@@ -199,8 +237,10 @@ pub async fn run_script_ticks(sc: &Script, max_ticks: u32) -> Option<Outcome> {
         let mut swap = false;
         for (i, r) in sc.rules.iter().enumerate() {
             if !used[i] && r.from_client == from_client && r.typ == k {
-                used[i] = true;
-                if r.act == Act::Swap { swap = true; } else { outs = outs.iter().flat_map(|d| apply(&r.act, d, &atk, &randoms)).collect(); }
+                let persistent = matches!(r.act, Act::RefragTailLost(_) | Act::RefragEvery3(_));
+                if !persistent { used[i] = true; }
+                if r.act == Act::Swap { swap = true; } else { outs = outs.iter().flat_map(|d| apply(&r.act, d, &atk, &randoms, occ[i])).collect(); }
+                occ[i] += 1;
             }
         }
         let slot = if from_client { &mut held.0 } else { &mut held.1 };
@@ -275,7 +315,13 @@ pub fn scripts(thorough: bool, rng: &mut Rng) -> Vec<Script> {
         vec![r(true, 20, Act::FlipCipher)], vec![r(false, 20, Act::FlipCipher)], vec![r(true, 20, Act::Drop)], vec![r(false, 20, Act::Drop)],
         vec![r(true, 20, Act::Dup)], vec![r(false, 20, Act::Dup)],
         vec![r(false, 11, Act::Fragment(100))], vec![r(false, 12, Act::Fragment(30))],
-        vec![r(false, 0, Act::Impostor)],
+        vec![r(false, 0, Act::Impostor)], vec![r(false, 0, Act::ImpostorChain)], vec![r(false, 0, Act::ExtraCert)],
+        // clear-text records injected at every stage of the handshake (before keys, between keys and Connected)
+        vec![r(false, 2, Act::PreInject(23))], vec![r(false, 14, Act::PreInject(23))], vec![r(false, 200, Act::PreInject(23))], vec![r(false, 20, Act::PreInject(23))],
+        vec![r(true, 16, Act::PreInject(23))], vec![r(true, 200, Act::PreInject(23))], vec![r(true, 20, Act::PreInject(23))],
+        vec![r(false, 2, Act::PreInject(21))], vec![r(false, 200, Act::PreInject(21))], vec![r(false, 20, Act::PreInject(21))],
+        vec![r(true, 16, Act::PreInject(21))], vec![r(true, 200, Act::PreInject(21))], vec![r(true, 20, Act::PreInject(21))],
+        vec![r(false, 20, Act::PreInject(22))], vec![r(true, 20, Act::PreInject(22))], vec![r(false, 12, Act::PreInject(20))],
         vec![r(false, 12, Act::Drop), r(false, 14, Act::SeqMinus1)],
         vec![r(false, 11, Act::Drop), r(false, 12, Act::SeqMinus1)],
     ];
@@ -331,6 +377,41 @@ fn fp_cases(run: &mut Run, rng: &mut Rng, n: usize) {
     }
 }
 
+/// `SessionDescription::dtls_fingerprint`: fingerprint attributes at session level and in media sections
+fn sdpfp_cases(run: &mut Run, rng: &mut Rng, n: usize) {
+    use rustrtc::sdp::{Attribute, MediaKind, MediaSection, SdpType, SessionDescription};
+    let fps = ["AA:BB:CC:DD", "aa:bb:cc:dd", "aabbccdd", "AA:BB:CC:EE", "AA:BB:CC", "zz:11", "", "AA:BB:CC:DD:"];
+    let algs = ["sha-256", "SHA-256", "sha-1", "Sha-256"];
+    for _ in 0..n {
+        let mut desc = SessionDescription::new(SdpType::Offer);
+        let nmedia = rng.below(3) as usize;
+        for i in 0..nmedia { desc.media_sections.push(MediaSection::new(MediaKind::Audio, i.to_string())); }
+        let mut args_text = vec![];
+        let k = rng.below(4) as usize;
+        // attributes are visited session first, then media sections in order: generate in that order
+        let mut slots: Vec<usize> = (0..k).map(|_| rng.below(nmedia as u64 + 1) as usize).collect();
+        slots.sort();
+        for slot in slots {
+            let val: Option<String> = match rng.below(12) {
+                0 => None,
+                1 => Some((*rng.pick(&algs)).to_string()),
+                2 => Some(format!("{} {} extra", rng.pick(&algs), rng.pick(&fps))),
+                3 => Some(format!("  {}   {}  ", rng.pick(&algs), rng.pick(&fps))),
+                _ => Some(format!("{} {}", rng.pick(&algs), rng.pick(&fps))),
+            };
+            args_text.push(match &val { None => "!".to_string(), Some(v) => hex(v.as_bytes()) });
+            let attr = Attribute::new("fingerprint", val);
+            if slot == 0 { desc.session.attributes.push(attr); } else { desc.media_sections[slot - 1].attributes.push(attr); }
+        }
+        // unrelated attributes must not matter
+        desc.session.attributes.push(Attribute::new("setup", Some("actpass".into())));
+        let out = match desc.dtls_fingerprint() { Err(_) => "err".to_string(), Ok(None) => "none".into(),
+            Ok(Some(f)) => format!("ok:{}:{}", hex(f.algorithm.as_bytes()), hex(f.value.as_bytes())) };
+        run.case("sdpfp", &args_text.join(" "), &out, out.starts_with("ok"));
+        run.count(&format!("sdpfp_{}", &out[..out.len().min(3)]));
+    }
+}
+
 pub fn run(args: &Args) {
     let rt = tokio::runtime::Builder::new_current_thread().enable_all().build().unwrap();
     if let Some(case) = &args.replay {
@@ -364,5 +445,6 @@ pub fn run(args: &Args) {
         if !done { run.count("script_skipped_timing"); }
     }
     fp_cases(&mut run, &mut rng, if args.tier_thorough { 50000 } else { 600 });
+    sdpfp_cases(&mut run, &mut rng, if args.tier_thorough { 20000 } else { 500 });
     run.finish();
 }
